@@ -155,6 +155,46 @@ SCENARIOS = [
 ]
 
 
+def fresh_value_scenarios():
+    """array `+` yields a new array whatever the operands are (also when one of them is empty at run time): changes made
+    through the result never show in an operand and vice versa; plain binding and argument passing do alias"""
+    out = []
+
+    def show_list(x):
+        return "[" + ", ".join(str(v) for v in x) + "]"
+    empties = ["[]", "rest([1])", "(fn() { [] })()", "e0"]
+    for A in ([], [1, 2, 3]):
+        for B in ([], [9]):
+            for ea in (empties if not A else [None]):
+                for eb in (empties if not B else [None]):
+                    la = ea if ea else show_list(A)
+                    lb = eb if eb else show_list(B)
+                    text = "let e0 = []; let a = %s; let b = %s; let r = a + b; push(r, 4); r[0] = 7; " % (la, lb)
+                    text += "push(__o, cp(a)); push(__o, cp(b)); push(__o, cp(r)); push(a, 5); push(b, 6); push(__o, cp(r)); push(__o, cp(a)); push(__o, cp(b));"
+                    a, b = list(A), list(B)
+                    r = a + b
+                    r.append(4)
+                    r[0] = 7
+                    exp = [show_list(a), show_list(b), show_list(r)]
+                    a.append(5)
+                    b.append(6)
+                    exp += [show_list(r), show_list(a), show_list(b)]
+                    if ea == "e0" or eb == "e0":
+                        if ea == "e0" and eb == "e0":
+                            continue     # a and b are the same object then: covered below
+                    out.append((text, exp))
+    out.append(("let base = [1, 2, 3]; let all = base + []; push(all, 4); push(__o, cp(base)); push(__o, cp(all));", ["[1, 2, 3]", "[1, 2, 3, 4]"]))
+    out.append(("let base = [1, 2, 3]; let all = [] + base; all[1] = 0; push(__o, cp(base)); push(__o, cp(all));", ["[1, 2, 3]", "[1, 0, 3]"]))
+    out.append(("let e = []; let x = e + e; push(x, 1); push(__o, cp(e)); push(__o, cp(x)); push(e, 2); push(__o, cp(x));", ["[]", "[1]", "[1]"]))
+    out.append(("fn add(xs, ys) { xs + ys } let p = [1]; let q = add(p, []); push(q, 2); push(__o, cp(p)); let w = add([], p); push(w, 3); push(__o, cp(p));", ["[1]", "[1]"]))
+    out.append(("let a = [[1], [2]]; let b = a + []; push(b[0], 9); push(b, [3]); push(__o, cp(a)); push(__o, cp(b));", ["[[1, 9], [2]]", "[[1, 9], [2], [3]]"]))
+    out.append(("let a = [1]; let i = 0; let acc = a; while i < 3 { acc = acc + []; push(acc, i); i = i + 1; } push(__o, cp(a)); push(__o, cp(acc));", ["[1]", "[1, 0, 1, 2]"]))
+    out.append(("let a = [1]; let b = a; push(b, 2); fn f(x) { push(x, 3); } f(a); push(__o, cp(a)); push(__o, cp(b));", ["[1, 2, 3]", "[1, 2, 3]"]))
+    out.append(("let s = \"ab\"; let t = s + \"\"; let u = \"\" + s; push(__o, t == s); push(__o, u); push(__o, s * 1);", ["true", "\"ab\"", "\"ab\""]))
+    CP = "fn cp(x) { let c = []; let i = 0; while i < len(x) { push(c, x[i]); i = i + 1; } c } "
+    return [(CP + t, e) for t, e in out]
+
+
 def run(chk):
     rng = chk.rng
     quick = chk.tier == "quick"
@@ -215,10 +255,11 @@ def run(chk):
         jobs.append(("order", prog, gen.PRELUDE + text, ev))
 
     cases = [Case("p%d" % i, text, {"globals": "__o", "final": 1, "steps": 400000}) for i, (_, _, text, _) in enumerate(jobs)]
-    for i, (text, exp) in enumerate(SCENARIOS):
+    scenarios = SCENARIOS + fresh_value_scenarios()
+    for i, (text, exp) in enumerate(scenarios):
         cases.append(Case("s%d" % i, gen.PRELUDE + text, {"globals": "__o", "steps": 400000}))
     res = core.run_cases(cases)
-    for i, (text, exp) in enumerate(SCENARIOS):
+    for i, (text, exp) in enumerate(scenarios):
         r = res.get("s%d" % i)
         if r is None:
             chk.inconc("missing result")
